@@ -40,11 +40,7 @@ Definition opath_eqb (a b : opath) : bool :=
 (** do two distinct search solutions compare Equal under the sort key?  Then the order of the
     implementation's result depends on HashMap iteration order and only the route set is
     compared. *)
-Fixpoint has_ties (l : list solution) : bool :=
-  match l with
-  | a :: ((b :: _) as r) => (match cmp_sol a b with Eq => true | _ => false end) || has_ties r
-  | _ => false
-  end.
+Definition has_ties (l : list solution) : bool := adjacent_ties l.
 Definition case_ties (c : ccase) : bool :=
   if c_src c =? c_dst c then false else
   match add_segments [] (input_segments (case_hid c) (c_cores c) (c_noncores c)) with
@@ -94,7 +90,7 @@ Definition verdict (c : ccase) : N :=
           else negb (list_eqb opath_eqb (map obs_path ps) (c_out c) && bytes0_ok c ps && c_stable c))
     end in
   (* the generator's claim of well-formedness must be the hypothesis of the C04 theorems *)
-  let wf_claim_bad := c_wf c && negb (forallb wf_segb (c_cores c ++ c_noncores c)) in
+  let wf_claim_bad := c_wf c && negb (forallb (fun s => wf_segb s && wf_peersb s) (c_cores c ++ c_noncores c)) in
   let mismatch := mismatch || wf_claim_bad in
   let bad := c_panic c
              || negb (forallb self_consistent (c_out c)) || negb (bytes0_decodes c)
